@@ -32,6 +32,8 @@ func main() {
 		cmdVerify(os.Args[2:])
 	case "check":
 		cmdCheck(os.Args[2:])
+	case "calls":
+		cmdCalls(os.Args[2:])
 	default:
 		fmt.Fprintln(os.Stderr, "unknown command", os.Args[1])
 		os.Exit(2)
@@ -120,8 +122,12 @@ func cmdVerify(args []string) {
 	var gens []*Gen
 	keys := fs.Args()
 	if len(keys) == 0 {
+		loaded := map[string]bool{}
+		for _, p := range e.pkgs {
+			loaded[p.PkgPath] = true
+		}
 		for k, c := range e.contracts {
-			if !c.Trusted {
+			if !c.Trusted && loaded[c.Pkg] {
 				keys = append(keys, k)
 			}
 		}
@@ -182,4 +188,60 @@ func cmdVerify(args []string) {
 		}
 	}
 	fmt.Printf("failed: %d\n", bad)
+}
+
+// cmdCalls lists the selector names of every call in a function (a help for
+// writing call-site clauses).
+func cmdCalls(args []string) {
+	fs := flag.NewFlagSet("calls", flag.ExitOnError)
+	pkgs := fs.String("pkgs", "", "comma separated package patterns")
+	fs.Parse(args)
+	e := NewEngine(envOr("VERIF_REPO", "/repo"), envOr("VERIF_DIR", "/verif"))
+	if err := e.Load(strings.Split(*pkgs, ",")); err != nil {
+		fmt.Fprintln(os.Stderr, "load:", err)
+		os.Exit(2)
+	}
+	for _, key := range fs.Args() {
+		for fn := range e.allFuncs {
+			match := false
+			for _, n := range funcNames(fn) {
+				if n == key {
+					match = true
+				}
+			}
+			if !match {
+				continue
+			}
+			var show func(f *ssa.Function, indent string)
+			show = func(f *ssa.Function, indent string) {
+				fmt.Printf("%s%s  freevars=%d params=%d\n", indent, f.Name(), len(f.FreeVars), len(f.Params))
+				for _, fv := range f.FreeVars {
+					fmt.Printf("%s  fv %s %s\n", indent, fv.Name(), fv.Type())
+				}
+				for _, b := range f.Blocks {
+					for _, in := range b.Instrs {
+						var cc *ssa.CallCommon
+						kind := "call"
+						switch x := in.(type) {
+						case *ssa.Call:
+							cc = &x.Call
+						case *ssa.Defer:
+							cc = &x.Call
+							kind = "defer"
+						case *ssa.Go:
+							cc = &x.Call
+							kind = "go"
+						}
+						if cc != nil {
+							fmt.Printf("%s  %s:%d %s %v\n", indent, shortFile(e.fset.Position(in.Pos()).Filename), e.fset.Position(in.Pos()).Line, kind, callNames(cc))
+						}
+					}
+				}
+				for _, a := range f.AnonFuncs {
+					show(a, indent+"    ")
+				}
+			}
+			show(fn, "")
+		}
+	}
 }
